@@ -412,3 +412,94 @@ Proof.
   - left. apply qc_leb_0_norm2. exact H.
   - right. apply qc_leb_iff. exact H.
 Qed.
+
+(* the same three clauses WITHOUT the linear-independence premise: residuals at least eps > 0 long
+   are non-zero, which is all the round-2 proofs used (and it implies independence) *)
+Lemma ge_eps_nonzero eps2 us : 0 < eps2 -> Forall (fun u => eps2 <= norm2 u) us -> Forall nonzero us.
+Proof.
+  intros He H. eapply Forall_impl; [|exact H]. intros u Hu Hz. unfold nonzero in *.
+  rewrite Hz in Hu. exact (Qclt_not_le _ _ He Hu).
+Qed.
+
+Theorem gsc_property_clauses_explicit : forall n eps2 ps,
+  0 < eps2 -> allN n ps -> Forall (fun u => eps2 <= norm2 u) (gs ps) ->
+  (forall i j mi mj, i <> j ->
+     nth_error (orthogonalize_c eps2 ps) i = Some mi -> nth_error (orthogonalize_c eps2 ps) j = Some mj ->
+     dot (snd mi) (snd mj) = c0 /\ mode_gram2 mi mj = 0) /\
+  Permutation (map mode_intensity (orthogonalize_c eps2 ps)) (map norm2 ps) /\
+  StronglySorted (fun a b => mode_intensity b <= mode_intensity a) (orthogonalize_c eps2 ps).
+Proof.
+  intros n eps2 ps He Hn Hge. pose proof (ge_eps_nonzero eps2 _ He Hge) as Hnz.
+  split; [|split].
+  - intros i j mi mj. apply gsc_orthogonal_dependent with (n := n); [exact Hn|].
+    eapply Forall_impl; [|exact Hge]. intros u Hu. right. exact Hu.
+  - rewrite (orthogonalize_c_idle eps2 ps Hge). unfold orthogonalize.
+    rewrite <- (gs_modes_intensity ps Hnz). apply Permutation_map. apply sort_desc_perm.
+  - apply gsc_sorted_desc.
+Qed.
+
+Lemma exists_last_or_nil {A} (l : list A) : l = [] \/ exists l' a, l = l' ++ [a].
+Proof.
+  destruct l as [|x l]; [left; reflexivity|]. right.
+  destruct (@exists_last A (x :: l)) as [l' [a E]]; [discriminate|]. exists l', a. exact E.
+Qed.
+
+
+Lemma cdiv_solve (c a x : C) : cnorm2 c <> 0 -> cadd a (cmul c x) = c0 ->
+  x = cmul (copp (cscale (/ cnorm2 c) (cconj c))) a.
+Proof.
+  intros Ne E.
+  assert (Ea : a = copp (cmul c x)).
+  { assert (X : a = csub (cadd a (cmul c x)) (cmul c x)) by ring. rewrite X, E. ring. }
+  subst a. clear E. destruct c as [cr ci], x as [xr xi].
+  unfold cmul, copp, cscale, cconj, cnorm2 in *; cbn [fst snd] in *.
+  apply injective_projections; cbn [fst snd]; field; exact Ne.
+Qed.
+
+Lemma vadd_vscale_solve (c : C) : cnorm2 c <> 0 -> forall p A, length A = length p ->
+  vadd A (vscale c p) = vzeros (length p) ->
+  p = vscale (copp (cscale (/ cnorm2 c) (cconj c))) A.
+Proof.
+  intros Ne. induction p as [|x p IHp]; intros [|a A] HA Hcp; cbn [length] in HA; try discriminate; [reflexivity|].
+  vcbn. pose proof (f_equal (hd c0) Hcp) as E1. pose proof (f_equal (@tl C) Hcp) as E2. cbn [hd tl] in E1, E2. f_equal; [apply cdiv_solve; [exact Ne | exact E1]|].
+  apply IHp; [congruence | exact E2].
+Qed.
+
+(* and such a family IS linearly independent *)
+Theorem ge_eps_lin_indep : forall n eps2 ps,
+  0 < eps2 -> allN n ps -> Forall (fun u => eps2 <= norm2 u) (gs ps) -> lin_indep n ps.
+Proof.
+  intros n eps2 ps He. induction ps as [|p ps IH] using rev_ind; intros Hn Hge cs Hl Hz.
+  - destruct cs; [constructor | discriminate Hl].
+  - unfold allN in Hn. apply Forall_app in Hn. destruct Hn as [Hps Hp].
+    pose proof (Forall_inv Hp) as Hp0. cbn beta in Hp0.
+    rewrite gs_snoc in Hge. apply Forall_app in Hge. destruct Hge as [Hge Hlast].
+    pose proof (Forall_inv Hlast) as Hr. cbn beta in Hr.
+    rewrite app_length in Hl. cbn [length] in Hl.
+    destruct (exists_last_or_nil cs) as [-> | [cs' [c ->]]]; [cbn in Hl; lia|].
+    rewrite app_length in Hl. cbn [length] in Hl.
+    assert (Hl' : length cs' = length ps) by lia.
+    rewrite (lincomb_app n ps [p] Hp cs' [c] Hl') in Hz. cbn [lincomb] in Hz.
+    assert (Ec : c = c0).
+    { destruct (Qc_eq_dec (cnorm2 c) 0) as [E | Ne]; [apply cnorm2_eq0; exact E|]. exfalso.
+      (* c <> 0: p = -(1/c) * (combination of ps) is dependent -> residual zero, contradiction *)
+      assert (Hdep : exists ds, length ds = length ps /\ p = lincomb n ds ps).
+      { exists (map (cmul (copp (cscale (/ cnorm2 c) (cconj c)))) cs'). split; [rewrite map_length; exact Hl'|].
+        rewrite lincomb_scale.
+        set (A := lincomb n cs' ps) in *.
+        assert (HA : length A = n) by (apply lincomb_length; exact Hps).
+        assert (Hcp : vadd A (vscale c p) = vzeros n).
+        { rewrite <- Hz. f_equal. rewrite <- Hp0. rewrite <- (vscale_length c p). symmetry. apply vadd_zeros_r. }
+        rewrite <- Hp0 in Hcp, HA. fold (vscale (copp (cscale (/ cnorm2 c) (cconj c))) A).
+        exact (vadd_vscale_solve c Ne p A HA Hcp). }
+      apply (residual_zero_iff_dependent n ps p Hps Hp0) in Hdep.
+      rewrite Hdep in Hr. exact (Qclt_not_le _ _ He Hr). }
+    subst c. apply Forall_app. split; [|constructor; [reflexivity | constructor]].
+    apply (IH Hps Hge cs' Hl').
+    rewrite vscale_c0, Hp0 in Hz.
+    assert (Z2 : vadd (vzeros n) (vzeros n) = vzeros n).
+    { pose proof (vadd_zeros_r (vzeros n)) as X. rewrite vzeros_length in X. exact X. }
+    rewrite Z2 in Hz.
+    pose proof (vadd_zeros_r (lincomb n cs' ps)) as X. rewrite (lincomb_length n cs' ps Hps) in X.
+    rewrite X in Hz. exact Hz.
+Qed.
